@@ -55,7 +55,7 @@ func suiteC17(r *Run) {
 	r.Rule = "nesting depths 1..5, every nil/pass/short-circuit/alter-options combination per layer (unary and stream interceptor independently), base = real grpc.ClientConn over bufconn, in-process channel, HTTP channel, recording channel; one unary call and one stream creation per configuration; compared: ordered event logs incl. the class of the cc argument (root / nil / other) and the options count reaching the base. Non-trivial: depth >= 2 or a layer with a nil interceptor; distinct by (base, layers)."
 	r.Assumptions = append(r.Assumptions, "grpc.ClientConn over bufconn as the standard connection")
 	rng := r.Rng
-	behs := []string{"-", "p", "s", "a", "d"} // none, pass, short-circuit, add an option, drop all options
+	behs := []string{"-", "p", "s", "a", "d", "m"} // none, pass, short-circuit, add an option, drop all options, forward under another method name
 
 	bb := newBufconn(&scriptServer{})
 	defer bb.stop()
@@ -99,9 +99,18 @@ func suiteC17(r *Run) {
 		ch := base
 		var wrappers []grpc.ClientConnInterface
 		for i := 0; i < depth; i++ {
-			l := layer{behs[rng.Intn(5)], behs[rng.Intn(5)]}
+			l := layer{behs[rng.Intn(6)], behs[rng.Intn(6)]}
 			if rng.Chance(50) {
 				l = layer{"p", "p"}
+			}
+			if baseKind != "rec" && baseKind != "recf" {
+				// the real channels would answer a renamed method with "unimplemented"; only the recording base takes any name
+				if l.u == "m" {
+					l.u = "p"
+				}
+				if l.s == "m" {
+					l.s = "p"
+				}
 			}
 			layers[i] = l
 			idx := i
@@ -118,6 +127,8 @@ func suiteC17(r *Run) {
 						opts = append(opts, grpc.WaitForReady(false))
 					case "d":
 						opts = nil
+					case "m":
+						method += "~"
 					}
 					return invoker(ctx, method, req, reply, cc, opts...)
 				}
@@ -133,6 +144,8 @@ func suiteC17(r *Run) {
 						opts = append(opts, grpc.WaitForReady(false))
 					case "d":
 						opts = nil
+					case "m":
+						method += "~"
 					}
 					return streamer(ctx, desc, cc, method, opts...)
 				}
@@ -223,8 +236,12 @@ func suiteC17(r *Run) {
 						sprintf("%s call, base %s, layers (inner to outer) %v: event %s (expected cc=%s)", kind, baseKind, lspec, e, wantCC), caseDesc, e)
 				}
 			}
-			// options: every layer (and finally the wrapped channel) receives exactly what the layer above forwarded
+			// method name and options: every layer (and finally the wrapped channel) receives exactly what the layer above forwarded
 			cur, stopped := ncopts, false
+			curM := mUnary
+			if kind == "stream" {
+				curM = mBidi
+			}
 			var wantOpts []string
 			for i := depth - 1; i >= 0 && !stopped; i-- {
 				b := layers[i].u
@@ -234,7 +251,7 @@ func suiteC17(r *Run) {
 				if b == "-" {
 					continue
 				}
-				wantOpts = append(wantOpts, sprintf("opts=%d)", cur))
+				wantOpts = append(wantOpts, sprintf("%s,opts=%d)", curM, cur))
 				switch b {
 				case "s":
 					stopped = true
@@ -242,20 +259,32 @@ func suiteC17(r *Run) {
 					cur++
 				case "d":
 					cur = 0
+				case "m":
+					curM += "~"
 				}
 			}
 			if !stopped && (baseKind == "rec" || baseKind == "recf") {
-				wantOpts = append(wantOpts, sprintf("opts=%d)", cur))
+				wantOpts = append(wantOpts, sprintf("%s,opts=%d)", curM, cur))
 			}
 			var gotOpts []string
 			for _, e := range log {
-				if k := strings.LastIndex(e, "opts="); k >= 0 {
+				if k := strings.Index(e, "/grpchantesting"); k >= 0 {
 					gotOpts = append(gotOpts, e[k:])
 				}
 			}
 			if fmt.Sprint(gotOpts) != fmt.Sprint(wantOpts) {
-				r.Violate("client-intercept/options-not-as-forwarded", "the continuation passed to an interceptor reaches the next layer exactly as the interceptor calls it",
-					sprintf("%s call with %d caller options, layers (inner to outer) %v: option counts seen %v, expected %v", kind, ncopts, lspec, gotOpts, wantOpts), caseDesc, ans)
+				sig, what := "client-intercept/options-not-as-forwarded", "option counts"
+				strip := func(xs []string) (o []string) {
+					for _, x := range xs {
+						o = append(o, x[strings.LastIndex(x, "opts="):])
+					}
+					return
+				}
+				if fmt.Sprint(strip(gotOpts)) == fmt.Sprint(strip(wantOpts)) {
+					sig, what = "client-intercept/method-not-as-forwarded", "method names"
+				}
+				r.Violate(sig, "the continuation passed to an interceptor reaches the next layer exactly as the interceptor calls it: method name and options passed through unchanged",
+					sprintf("%s call with %d caller options, layers (inner to outer) %v: %s seen %v, expected %v", kind, ncopts, lspec, what, gotOpts, wantOpts), caseDesc, ans)
 			}
 			if fmt.Sprint(got) != fmt.Sprint(want) {
 				r.Violate("client-intercept/wrong-order-or-count", "routes each call through the interceptor exactly once, outermost wrapper first; kinds without an interceptor go straight to the wrapped channel",
